@@ -26,9 +26,34 @@ for hq, hn in funcs:
     elif cls and hq.rsplit(".", 1)[0] == cls:
         hn._is_method = True
         helpers[hq.rsplit(".", 1)[1]] = hn
+alpha.begin_repo({**{k: None for k in []}, **ov})
+import os as _os
+srcs = {}
+for dp, _, fs in _os.walk(_os.path.join(REPO_ROOT, "tartiflette")):
+    for f in fs:
+        if f.endswith(".py"):
+            rp = _os.path.relpath(_os.path.join(dp, f), REPO_ROOT)
+            srcs[rp] = ov.get(rp) or open(_os.path.join(dp, f)).read()
+alpha.begin_repo(srcs)
+local_defs = alpha._module_level_defs(tree)
+for name in alpha._called_names(node):
+    if name in helpers or name == qual.rsplit(".", 1)[-1]:
+        continue
+    d = local_defs.get(name) or alpha.current_def(name)
+    if d is not None and d is not node and alpha._small(d):
+        helpers[name] = d
 print("helpers:", list(helpers))
 cur = normal_form(node, alpha.signatures(), helpers=helpers, in_class=cls is not None)
-r = normal_form(ast.parse(ref[f"{rel}::{qual}"]["src"]).body[0], alpha.signatures())
+rnode = ast.parse(ref[f"{rel}::{qual}"]["src"]).body[0]
+rh = {}
+for name in alpha._called_names(rnode):
+    if name == qual.rsplit(".", 1)[-1]:
+        continue
+    d = alpha.reference_def(name, rel)
+    if d is not None and alpha._small(d):
+        rh[name] = d
+print("reference helpers:", list(rh))
+r = normal_form(rnode, alpha.signatures(), helpers=rh, in_class=cls is not None)
 a = alpha.normal_form(cur).splitlines()
 b = alpha.normal_form(r).splitlines()
 print("EQUAL" if a == b else "DIFFERENT")
